@@ -4,11 +4,8 @@
 (* ledger profile, and decoding its canonical bytes gives back the same data             *)
 (* (Parse . Canon = id on the grammar).                                                  *)
 EXTENDS ConwaySchema, CDDLGen, TraceLib
-CONSTANT Depth
+CONSTANTS Depth, Types
 VARIABLE c
-Types == {"transaction", "body", "output", "value", "mint", "certificate", "witness_set", "native_script", "plutus_data", "auxiliary_data", "metadata",
-          "metadatum", "input", "redeemers", "vkeywitness", "bootstrap_witness", "voting_procedures", "proposal", "script_ref", "drep",
-          "protocol_param_update", "gov_action", "header_body", "header", "block", "operational_cert"}
 Cases == UNION {{[ty |-> ty, tree |-> x] : x \in K1(Schema, Schema[ty], Depth) \cup {Default(Schema, Schema[ty])}} : ty \in Types}
 Init == c \in Cases
 Next == UNCHANGED c
